@@ -1,7 +1,7 @@
 (* Pinned statements of the C13 theorems (must match Properties/C13.v). *)
 From Coq Require Import ZArith NArith List Bool.
 Import ListNotations.
-Require Import TC.Generated.Consts TC.Resp.Utf8 TC.Resp.Decimal TC.Resp.Parse TC.Resp.ParseProofs TC.Resp.Conn TC.Resp.ConnProofs.
+Require Import TC.Generated.Consts TC.Resp.Utf8 TC.Resp.Decimal TC.Resp.Parse TC.Resp.ParseProofs TC.Resp.Local TC.Resp.Conn TC.Resp.ConnProofs.
 Open Scope N_scope.
 Require Import TC.Properties.C13.
 
@@ -28,25 +28,28 @@ Check C13_strict_prefix_needs_more :
   s <> [] -> fst (parse_with depth (p ++ s)) = POk v (length (p ++ s)) ->
   fst (parse_with depth p) = PNeedMore.
 Check C13_chunking_independent :
-  forall (isq : value -> bool) (chunks : list bytes) (buf : bytes) (depth : nat),
-  drain_all isq depth buf = ([], buf, depth, CNeedMore) ->
-  let r1 := run_nocap isq (buf, depth, CNeedMore) chunks in
-  let r2 := drain_all isq depth (buf ++ concat chunks) in
-  fst r1 = fst (fst (fst r2)) /\ snd (snd r1) = snd r2 /\
-  (snd r2 = CNeedMore -> snd r1 = (snd (fst (fst r2)), snd (fst r2), CNeedMore)).
+  forall (isq : value -> bool) (chunks : list bytes),
+  fst (conn_run isq conn_init chunks) = fst (whole isq (concat chunks)) /\
+  (c_end (snd (conn_run isq conn_init chunks)) = Open <-> snd (whole isq (concat chunks)) = Open) /\
+  (c_end (snd (conn_run isq conn_init chunks)) = ClosedByQuit <-> snd (whole isq (concat chunks)) = ClosedByQuit).
+Check C13_chunking_independent_from :
+  forall (isq : value -> bool) (chunks : list bytes) (cn : conn),
+  c_end cn = Open -> drain_all isq (c_depth cn) (c_buf cn) = ([], c_buf cn, c_depth cn, CNeedMore) -> (length (c_buf cn) <= cap)%nat ->
+  let r := conn_run isq cn chunks in
+  let '(vs, b, d, s) := drain_all isq (c_depth cn) (c_buf cn ++ concat chunks) in
+  fst r = vs /\ (c_end (snd r) = Open <-> end_of s b = Open) /\ (c_end (snd r) = ClosedByQuit <-> end_of s b = ClosedByQuit).
 Check C13_two_splittings_agree :
   forall (isq : value -> bool) (cs1 cs2 : list bytes),
   concat cs1 = concat cs2 ->
-  fst (run_nocap isq ([], 0%nat, CNeedMore) cs1) = fst (run_nocap isq ([], 0%nat, CNeedMore) cs2) /\
-  snd (snd (run_nocap isq ([], 0%nat, CNeedMore) cs1)) = snd (snd (run_nocap isq ([], 0%nat, CNeedMore) cs2)).
+  fst (conn_run isq conn_init cs1) = fst (conn_run isq conn_init cs2) /\
+  (c_end (snd (conn_run isq conn_init cs1)) = Open <-> c_end (snd (conn_run isq conn_init cs2)) = Open).
+Check C13_decode_local :
+  forall depth d x v c dp,
+  parse_with depth (d ++ x) = (POk v c, dp) -> (c <= length d)%nat -> parse_with depth d = (POk v c, dp).
 Check C13_buffer_cap :
   forall (isq : value -> bool) (cn : conn) (chunk : bytes),
   c_end cn = Open -> (length (c_buf cn) <= cap)%nat ->
   let r := conn_feed isq cn chunk in
   (length (c_buf cn ++ chunk) <= cap + length chunk)%nat /\
-  (c_end (snd r) <> ClosedByCap -> (length (c_buf cn ++ chunk) <= cap)%nat /\ (length (c_buf (snd r)) <= length (c_buf cn ++ chunk))%nat) /\
-  (c_end (snd r) = ClosedByCap -> fst r = []).
-Check C13_below_cap_is_capless :
-  forall (isq : value -> bool) (cn : conn) (chunk : bytes),
-  c_end cn = Open -> (length (c_buf cn ++ chunk) <= cap)%nat ->
-  fst (conn_feed isq cn chunk) = fst (feed_nocap isq (c_buf cn, c_depth cn, CNeedMore) chunk).
+  (length (c_buf (snd r)) <= length (c_buf cn ++ chunk))%nat /\
+  (c_end (snd r) = Open -> (length (c_buf (snd r)) <= cap)%nat).
